@@ -625,17 +625,38 @@ func mkAmplicon(ms []markerM, r Read, o, c hit) amplicon {
 //
 //	"none"    no priming site of any primer in either orientation: one record, the read itself, flagged
 //	"paired"  the sites are exactly a succession of well separated (opening, closing) pairs: the amplicons are determined
-//	"other"   anything else (lone, overlapping, crossed, ambiguous sites): only the safety clause applies
+//	"mixed"   well separated sites, some of which are lone (partial priming sites: an opening primer whose closing
+//	          primer is missing or over budget, a closing primer without its opening primer, sites of another
+//	          marker or strand), lying in the flanks of the (opening, closing) pairs: the amplicons are the pairs of
+//	          neighbouring sites "opening primer, closing primer of the same marker on the same strand"
+//	          (properties.jsonl, mechanism: the hits of all markers sorted by position, a direct hit followed by the
+//	          matching complementary hit delimits a barcode); a read without any such pair is output flagged
+//	"other"   anything else (overlapping, crossed, ambiguous sites, a lone site between an opening primer and the
+//	          closing primer it could be matched with): only the safety clause applies
 func classify(ms []markerM, r Read) (class string, amps []amplicon, hits []hit) {
+	class, amps, hits, _ = classifyLone(ms, r)
+	return
+}
+
+// opener gives the kind of the opening site a closing site of kind k closes (-1: k is itself an opening kind).
+func opener(k int) int {
+	switch k {
+	case kCRev:
+		return kFwd
+	case kCFwd:
+		return kRev
+	}
+	return -1
+}
+
+// classifyLone is classify, and also tells which sites are lone (lone[i] for hits[i]; nil unless paired / mixed).
+func classifyLone(ms []markerM, r Read) (class string, amps []amplicon, hits []hit, lone []bool) {
 	hits, amb := allHits(ms, r.Seq)
 	if amb {
-		return "other", nil, hits
+		return "other", nil, hits, nil
 	}
 	if len(hits) == 0 {
-		return "none", nil, hits
-	}
-	if len(hits)%2 != 0 {
-		return "other", nil, hits
+		return "none", nil, hits, nil
 	}
 	maxB := 0
 	for _, m := range ms {
@@ -643,7 +664,7 @@ func classify(ms []markerM, r Read) (class string, amps []amplicon, hits []hit) 
 	}
 	for i := 1; i < len(hits); i++ {
 		if hits[i].A < hits[i-1].B {
-			return "other", nil, hits
+			return "other", nil, hits, nil
 		}
 	}
 	// two sites of the same pattern must be clearly apart (the matcher merges neighbours)
@@ -656,22 +677,51 @@ func classify(ms []markerM, r Read) (class string, amps []amplicon, hits []hit) 
 					need += hits[i].B - hits[i].A
 				}
 				if gap < need {
-					return "other", nil, hits
+					return "other", nil, hits, nil
 				}
 			}
 		}
 	}
-	for i := 0; i < len(hits); i += 2 {
-		o, c := hits[i], hits[i+1]
-		if o.Marker != c.Marker || !(o.Kind == kFwd && c.Kind == kCRev || o.Kind == kRev && c.Kind == kCFwd) {
-			return "other", nil, hits
-		}
-		if c.A-o.B < 1 {
-			return "other", nil, hits // empty barcode: not decided by the statement
-		}
-		amps = append(amps, mkAmplicon(ms, r, o, c))
+	// Every closing site looks back for the nearest site that concerns it: the
+	// opening primer it closes, or an earlier occurrence of itself.
+	//   - none, or an earlier occurrence of itself (which took the opening primer,
+	//     or had none either): the closing site is lone;
+	//   - the opening primer, immediately before it: a pair;
+	//   - the opening primer, with other sites in between: the statement does not
+	//     say whether a barcode may span a foreign priming site -> "other".
+	lone = make([]bool, len(hits))
+	for i := range lone {
+		lone[i] = true
 	}
-	return "paired", amps, hits
+	for j, c := range hits {
+		ok := opener(c.Kind)
+		if ok < 0 {
+			continue
+		}
+		i := j - 1
+		for ; i >= 0; i-- {
+			if hits[i].Marker == c.Marker && (hits[i].Kind == ok || hits[i].Kind == c.Kind) {
+				break
+			}
+		}
+		if i < 0 || hits[i].Kind == c.Kind {
+			continue
+		}
+		if i != j-1 {
+			return "other", nil, hits, nil
+		}
+		if c.A-hits[i].B < 1 {
+			return "other", nil, hits, nil // empty barcode: not decided by the statement
+		}
+		lone[i], lone[j] = false, false
+		amps = append(amps, mkAmplicon(ms, r, hits[i], c))
+	}
+	for _, l := range lone {
+		if l {
+			return "mixed", amps, hits, lone
+		}
+	}
+	return "paired", amps, hits, lone
 }
 
 // ------------------------------------------------------------------ sample identification
